@@ -4,6 +4,7 @@ import (
 	"fmt"
 	"go/token"
 	"go/types"
+	"os"
 	"strings"
 
 	"golang.org/x/tools/go/ssa"
@@ -725,6 +726,16 @@ func (g *FnGen) appendBuiltin(v ssa.Value, c *ssa.CallCommon) Val {
 		if al, ok := sl.X.(*ssa.Alloc); ok {
 			if arr, ok := al.Type().(*types.Pointer).Elem().Underlying().(*types.Array); ok {
 				constN = int(arr.Len())
+				if rec, isVA := g.varargs[g.val(al).T]; isVA {
+					// elements remembered as values (see alloc): no heap read
+					inner := readT
+					readT = func(k string) string {
+						if v, ok := rec[k]; ok {
+							return v
+						}
+						return inner(k)
+					}
+				}
 			}
 		}
 	}
@@ -747,6 +758,35 @@ func (g *FnGen) appendBuiltin(v ssa.Value, c *ssa.CallCommon) Val {
 	g.assume(g.sle(newlen, ncap))
 	g.assume(g.sle(ncap, g.ilit64(1<<maxLenLog)))
 	z := g.ilit64(0)
+	if constN >= 0 && constN <= unrollAppend && os.Getenv("GOVC_OLDAPPEND") == "" {
+		// A constant number of appended elements: the result keeps the offset of s in BOTH outcomes (the positions of a fresh
+		// backing array are ours to name), so the new row is the old row -- or, after reallocation, a fresh row agreeing with it on
+		// the window of s -- with the new elements stored behind the window. No quantified definition of the row is needed when the
+		// append is in place.
+		idx := g.idx()
+		rowSort := fmt.Sprintf("(Array %s %s)", idx, g.sortOf(el))
+		r := g.define(v, fmt.Sprintf("(mk-slice (ite %s %s %s) %s %s (ite %s %s %s))", inplace, sref(s.T), ref, soff(s.T), newlen, inplace, scap(s.T), ncap), "Slice")
+		oldrow := fmt.Sprintf("(select %s %s)", h, sref(s.T))
+		fr := g.fresh("frow", rowSort)
+		k := "ap!k"
+		g.assume(fmt.Sprintf("(forall ((%s %s)) (! (=> (and %s %s) (= (select %s %s) (select %s %s))) :pattern ((select %s %s))))",
+			k, idx, g.sle(soff(s.T), k), g.slt(k, g.add(soff(s.T), slen(s.T))), fr, k, oldrow, k, fr, k))
+		rowT := fmt.Sprintf("(ite %s %s %s)", inplace, oldrow, fr)
+		abase := g.add(soff(s.T), slen(s.T))
+		for j := 0; j < constN; j++ {
+			kj := g.ilit64(int64(j))
+			rowT = fmt.Sprintf("(store %s %s %s)", rowT, g.add(abase, kj), readT(kj))
+		}
+		row := g.fresh("row", rowSort)
+		g.assume(fmt.Sprintf("(= %s %s)", row, rowT))
+		g.loopFrameCheck(fam, sref(r.T), token.NoPos)
+		g.heapSet(g.cur, fam, fmt.Sprintf("(store %s %s %s)", h, sref(r.T), row))
+		g.assume(fmt.Sprintf("(= (select %s %s) %s)", g.heapGet(g.cur, fam, sort), sref(r.T), row))
+		if g.fc.HasAssigns {
+			g.note("append in place writes beyond len(s) of the backing array; not checked against the assigns clause")
+		}
+		return r
+	}
 	r := g.define(v, fmt.Sprintf("(ite %s (mk-slice %s %s %s %s) (mk-slice %s %s %s %s))", inplace,
 		sref(s.T), soff(s.T), newlen, scap(s.T), ref, z, newlen, ncap), "Slice")
 	row := g.fresh("row", fmt.Sprintf("(Array %s %s)", g.idx(), g.sortOf(el)))
@@ -788,6 +828,10 @@ func (g *FnGen) appendBuiltin(v ssa.Value, c *ssa.CallCommon) Val {
 		inplace, k, idx, g.slt(k, g.add(soff(s.T), slen(s.T))), g.sle(g.add(soff(s.T), newlen), k), row, k, h, sref(s.T), k, row, k))
 	g.loopFrameCheck(fam, sref(r.T), token.NoPos)
 	g.heapSet(g.cur, fam, fmt.Sprintf("(store %s %s %s)", h, sref(r.T), row))
+	// ground read-over-write fact: lets the E-matching patterns over `row` fire on reads through the new heap version
+	if os.Getenv("GOVC_NOGROUND") == "" {
+		g.assume(fmt.Sprintf("(= (select %s %s) %s)", g.heapGet(g.cur, fam, sort), sref(r.T), row))
+	}
 	if g.fc.HasAssigns {
 		g.note("append in place writes beyond len(s) of the backing array; not checked against the assigns clause")
 	}
